@@ -338,7 +338,7 @@ class FieldCollection(FieldBase):
                 msg = "Individual fields must be of type DataFieldBase."
                 raise TypeError(msg)
             field = field_class(grid)
-            end = start + grid.num_axes**field.rank
+            end = start + grid.dim**field.rank
             if with_ghost_cells:
                 field._data_flat = data[start:end]
             else:
